@@ -800,3 +800,23 @@ pub fn pawn_on_seventh(p: &Pos) -> bool {
     let r = if p.stm == Color::W { 6 } else { 1 };
     (0..8).any(|f| p.sq[sq_of(f, r).unwrap() as usize] == Some((p.stm, Kind::P)))
 }
+
+/// Move counters a real game can show for position `p`: fullmove number >= 1, halfmove clock at
+/// most the number of plies played (2*(fullmove-1), +1 when Black is to move), at most 150, and 0
+/// right after a double pawn push (ep square present).  `full_wish`/`half_wish` are generated
+/// values; the clock is clamped into the reachable range, and sits exactly ON the bound often.
+pub fn reachable_counters(s: &mut Src, p: &Pos, half_wish: u32, full_wish: u32) -> (u32, u32) {
+    let full = full_wish.max(1);
+    let plies = 2 * (full - 1) + if p.stm == Color::B { 1 } else { 0 };
+    let bound = plies.min(150);
+    let half = if p.ep.is_some() {
+        0
+    } else {
+        match s.below(4) {
+            0 => bound,
+            1 => bound.saturating_sub(1),
+            _ => half_wish.min(bound),
+        }
+    };
+    (half, full)
+}
